@@ -86,6 +86,26 @@ def store_lines(codes):
     return out
 
 
+_LIBRARY_CODES = {}
+
+
+def store_gates(sch, rng, dc, p=0.3):
+    """With probability p make the attribute stores of the library's classes and recipes scheduling points of `sch` (see
+    LineGates, only_stores): threads that share one library object are then also interleaved around the state the
+    object keeps in memory.  Returns True when switched on."""
+    if rng.random() >= p:
+        return False
+    codes = _LIBRARY_CODES.get(id(dc))
+    if codes is None:
+        import importlib
+        owners = [dc.Cache, dc.FanoutCache, dc.Deque, dc.Index, dc.Disk, importlib.import_module(dc.__name__ + '.recipes')]
+        codes = _LIBRARY_CODES[id(dc)] = code_objects(*owners)
+    sch.line_codes = codes
+    sch.only_stores = True
+    sch.max_steps *= 4
+    return True
+
+
 class LineGates:
     """Statement-level scheduling points (sys.monitoring LINE events, Python >= 3.12): while active, every statement of
     the chosen library functions that a client thread of the scheduler executes is a gate, so that two threads sharing
